@@ -24,7 +24,7 @@ def rule_space(E, R):
     R.check(vals == sorted([" ", "\r", "\n"]), rule, "lex::SPACE_CHARS", "whitespace between tokens is exactly space, CR, LF", repr(vals), c[0]["span"])
     h = E.hir("lex::skip_space")
     if h:
-        t = tail(h["body"])
+        t = fn_result(h)
         ok = t.get("k") == "MethodCall" and t["m"] == "trim_start_matches" and is_param(t["recv"], h, 0) and \
             (def_path(t["args"][0]) or "").endswith("SPACE_CHARS")
         R.check(ok, rule, "lex::skip_space", "skip_space trims exactly that set from the front", where=h["span"])
@@ -294,7 +294,7 @@ def rule_hashwrite(F, R):
     h2 = X.hir("<HasherWrite<H> as std::io::Write>::write")
     if h2:
         wa = [c for c in exprs(h2["body"], "MethodCall") if c["m"] == "write_all" and is_param(c["args"][0], h2, 1)]
-        t = tail(h2["body"])
+        t = fn_result(h2)
         ok = len(wa) == 1 and norm(t.get("callee", "")) == "core::result::Result::Ok" and strip(t["args"][0]).get("m") == "len" and \
             is_param(strip(t["args"][0])["recv"], h2, 1)
         R.check(ok, rule, norm(h2["path"]), "write() hashes the whole buffer and reports its full length", where=h2["span"])
